@@ -118,6 +118,20 @@ Theorem C10_set_push_query : forall val rt vnet vfront vempty (route : alist val
 Proof. exact set_push_query. Qed.
 Print Assumptions C10_set_push_query.
 
+(* A handler that sets and pushes on one BackSession WITHOUT waiting for acknowledgements, in
+   any order and number ([OBackScript]: sets / pushes, no step awaited), and finally pushes once
+   more: every key it set has, on the front-end, the normal form of the last value it set.
+   Nothing set between sending a push and its acknowledgement is lost (the dirty flag is cleared
+   when the push is SENT). *)
+Theorem C10_pipelined_pushes : forall val rt vnet vfront (route : alist val -> option Z) (h : list (op val)) b sid m acts,
+  bsid val h b = Some sid -> fmap val rt vnet vfront h sid = Some m -> has_query val acts = false ->
+  exists m', fmap val rt vnet vfront ((h ++ [OBackScript b acts]) ++ [OBackPush b]) sid = Some m' /\
+    forall k, set_in val k acts = true ->
+      exists v, aget k (bnew val ((h ++ [OBackScript b acts]) ++ [OBackPush b]) b) = Some v /\
+                aget k m' = Some (rt v).
+Proof. exact script_then_push. Qed.
+Print Assumptions C10_pipelined_pushes.
+
 (* the hypothesis of C10_set_push_query is met by the concrete JSON values of the harness *)
 Theorem C10_concrete_rt_idempotent : forall v, crt (crt v) = crt v.
 Proof. exact crt_idem. Qed.
